@@ -335,14 +335,19 @@ def pda_find_epsilon_path(P: PDA, R: Set[PDAState], f: PDAState) -> Optional[Lis
     visited: Set[PDAState] = set([r for r in R])
     todo: Set[PDAState] = set([r for r in R])
     while len(todo) > 0:
+        if _verif.ON: _rest = _verif.force('ppath.pop', todo)
         src = todo.pop()
+        if _verif.ON: _verif.restore(todo, _rest)
+        if _verif.ON and _verif.DETAIL: _verif.emit('ppath.pop', src=(src.q, list(src.stack)))
         for (p, a, u), Q1 in delta.items():
             if p != src.q or a != epsilon:
                 continue
+            if _verif.ON: Q1 = _verif.ordered('ppath.edge', Q1)
             for (q, v) in Q1:
                 if pda_can_pop_push(P, src.stack, u, v):
                     stack1 = pda_pop_push(P, src.stack, u, v)
                     target = PDAState(q, stack1)
+                    if _verif.ON and _verif.DETAIL: _verif.emit('ppath.edge', src=(src.q, list(src.stack)), target=(q, list(stack1)))
                     if target not in visited:
                         backpointers[target] = src
                         if target == f:
